@@ -95,8 +95,8 @@ func (b *Batch) Put(key []byte, value []byte) error {
 	} else {
 		// 如果缓存命中则直接修改缓存
 		logRecord.Type = datafile.LogRecordNormal
-		logRecord.Key = key
-		logRecord.Value = value
+		// 拷贝 value, 不持有调用方的切片 (key 内容相同无需更新)
+		logRecord.Value = append(logRecord.Value[:0], value...)
 		b.cachedDataSize += newSize - oldSize
 	}
 	return nil
